@@ -1,6 +1,7 @@
 import O4.Lemmas.Obfs4Tx
 import O4.Lemmas.Obfs4Rx
 import O4.Generated.Facts.Obfs4
+import O4.Model.Ntor
 import O4.Lemmas.Obfs4Tamper
 /-!
 # C05 — the obfs4 reader hands the application only a prefix of what the peer sealed
@@ -350,5 +351,41 @@ theorem receive_state_private :
     "receiveBuffer" ∉ O4.Facts.Obfs4.obfs4Conn_Write_fields ∧
     "receiveDecodedBuffer" ∉ O4.Facts.Obfs4.obfs4Conn_Write_fields ∧
     "encoder" ∉ O4.Facts.Obfs4.obfs4Conn_Read_fields := by decide
+
+/-! ## where the frame keys come from: KEY_SEED is not a public value
+
+C05 is a statement against an adversary who sees the wire.  The link keys are `Kdf(KEY_SEED)`;
+the server sends `AUTH` in the clear.  In the ntor model (`O4/Model/Ntor.lean`, tied byte for byte
+to `common/ntor` by the driver `ntor`: C08's check on random and steered inputs, and this check on
+the inputs of every sampled real session) the two are HMACs of different messages under
+**different keys**; that their values are unrelated is a PRF assumption about HMAC-SHA256, not a
+theorem — the honest statements are the structural one and its reduction form.  The harness
+complements them with the on-path oracle `session-keys-derivable-from-public-transcript` (every
+32-byte window of both public flights through the real KDF against the first real frames). -/
+
+/-- **shape of the ntor outputs**: `KEY_SEED = H(t_key, secret_input)`,
+    `AUTH = H(t_mac, H(t_verify, secret_input) ‖ B ‖ B ‖ X ‖ Y ‖ PROTOID ‖ ID ‖ "Server")`, and the
+    three labels (regenerated from the Go constants) are pairwise distinct. -/
+theorem ntor_keyseed_auth_shape (P : O4.Ntor.Prims) (exps id b x y : Bytes) :
+    (O4.Ntor.ntorCommon P exps id b x y).1
+      = P.hmac (O4.Ntor.bs O4.Consts.Ntor.tKey) (exps ++ O4.Ntor.suffix id b x y) ∧
+    (O4.Ntor.ntorCommon P exps id b x y).2
+      = P.hmac (O4.Ntor.bs O4.Consts.Ntor.tMac)
+          (P.hmac (O4.Ntor.bs O4.Consts.Ntor.tVerify) (exps ++ O4.Ntor.suffix id b x y)
+            ++ O4.Ntor.suffix id b x y ++ O4.Ntor.bs "Server") ∧
+    O4.Consts.Ntor.tKey ≠ O4.Consts.Ntor.tMac ∧ O4.Consts.Ntor.tKey ≠ O4.Consts.Ntor.tVerify ∧
+    O4.Consts.Ntor.tMac ≠ O4.Consts.Ntor.tVerify :=
+  ⟨rfl, rfl, by decide, by decide, by decide⟩
+
+/-- **reduction form**: if the value the server publishes (`AUTH`) equals the key seed, then two
+    explicit HMAC computations under the distinct labels `t_key` and `t_mac` collide. -/
+theorem keyseed_eq_auth_is_collision (P : O4.Ntor.Prims) (exps id b x y : Bytes)
+    (h : (O4.Ntor.ntorCommon P exps id b x y).1 = (O4.Ntor.ntorCommon P exps id b x y).2) :
+    P.hmac (O4.Ntor.bs O4.Consts.Ntor.tKey) (exps ++ O4.Ntor.suffix id b x y)
+      = P.hmac (O4.Ntor.bs O4.Consts.Ntor.tMac)
+          (P.hmac (O4.Ntor.bs O4.Consts.Ntor.tVerify) (exps ++ O4.Ntor.suffix id b x y)
+            ++ O4.Ntor.suffix id b x y ++ O4.Ntor.bs "Server") ∧
+    O4.Consts.Ntor.tKey ≠ O4.Consts.Ntor.tMac :=
+  ⟨h, by decide⟩
 
 end C05
